@@ -192,6 +192,16 @@ def rule_emit_total(ctx: Ctx) -> RuleResult:
         if not loops and not any(isinstance(e, ast.ListComp) for e in enc):
             rr.add(finding("ORDER", em, c, "handlers are not dispatched from a loop over the handler list", construct="no dispatch loop"))
             continue
+        # the dispatch loop is reached on every way through emit(): a return in front of it (an 'optimisation' that
+        # looks the name up in the class registration first) silences handlers that are connected - the registration
+        # of a class can be replaced after handlers were connected (seed C14-r8b)
+        cfg = cfg_of(em)
+        heads = [n for n in cfg.nodes if n.kind == "for" and any(n.stmt is lp for lp in loops)]
+        rr.inst("dispatch loop on every path", True, {"loop_heads": len(heads)})
+        if heads and not cfg.must_pass(cfg.entry, heads, ends=[cfg.exit], labels=("n", "T", "F")):
+            path = cfg.witness_path(cfg.entry, [cfg.exit], avoid=heads, labels=("n", "T", "F"))
+            ret = next((n for n in (path or []) if n.kind == "return"), None)
+            rr.add(finding("ORDER", em, ret.stmt if ret is not None else em.node, f"emit() can return (`{norm(ret.stmt, 40) if ret is not None else '?'}`) without looking at the handlers connected to the sender: handlers that are connected and were never disconnected are not called, and emit() answers False where a handler would have returned True", construct="emit returns before the dispatch loop"))
         for lp in loops:
             rr.inst("no early exit", True)
             early = [n for st in lp.body for n in walk_no_nested(st) if isinstance(n, (ast.Return, ast.Break))]
